@@ -67,8 +67,11 @@ def h_iter2(prop, case, facts, kind="dfa", n=5, an=UN, timeout=900):
     meta = dict(template="iter2", kind=kind, N=n, K=2, anchored_mode=["unanchored", "anchored", "either"][an],
                 symbolic=["haystack bytes", "span start (induction variable)", "span end"],
                 induction="iterator state after any next() is (m.end, Some(m.end)); two calls from a symbolic start cover the fresh and every reachable non-fresh state")
+    unsat = unsat_ok_find(case, an)
+    if 2 * max(1, case.minlen) > n:
+        unsat = unsat | {"two items"}
     return Harness(name, case, body, base_unwind(case, facts, n), schema, meta, timeout=timeout,
-                   functions=F_SEARCH + F_ITER + F_KIND[kind], unsat_ok=unsat_ok_find(case, an))
+                   functions=F_SEARCH + F_ITER + F_KIND[kind], unsat_ok=unsat)
 
 
 
@@ -438,7 +441,7 @@ def h_pk_teddy(prop, case, facts, length, off, w, pad, timeout=2400, mem_gb=20):
     f = facts[case.key]
     name = "h_pkteddy_%s_l%d_o%d_w%d_p%02x" % (case.name, length, off, w, pad)
     body = "    t::pk_teddy::<%s, %d, %d, %d, %d>();" % (case.mod, length, off, w, pad)
-    schema = [("w", ("bytes", w)), ("s", "usize")]
+    schema = [("w", ("bytes", w))]
     meta = dict(template="pk_teddy", replay_template="pk_teddy", kind="packed:" + f["imp"], LEN=length, OFF=off, W=w,
                 PAD=pad, fixed_inputs={"len": length, "off": off, "pad": pad},
                 symbolic=["%d window bytes at offset %d of a %d-byte exactly sized haystack" % (w, off, length), "span start <= window offset"],
@@ -989,12 +992,14 @@ def schedule(prop, tier, seed):
             hs = []
             for c in cases:
                 n = 8 if (c.maxlen >= 4 or not quick) else 7
-                h = h_find(prop, c, facts, "dfa", n=n, an=UN, timeout=1200)
+                if c in pk_cases:
+                    n = 5 if quick else 6  # Rabin-Karp inside the prefilter: 20+ min at N=7 (measured)
+                h = h_find(prop, c, facts, "dfa", n=n, an=UN, timeout=1200 if quick else 3000)
                 h.stubs = list(STUB_PF)
                 h.meta["prefilter"] = facts[c.name]["prefilter"][:120]
                 hs.append(h)
-                if not quick or c.mk == "lf" or "r1b" in c.name:
-                    h = h_iter2(prop, c, facts, "dfa", n=5 if quick else 6, an=UN, timeout=1200)
+                if (not quick or c.mk == "lf" or "r1b" in c.name) and not (quick and c in pk_cases):
+                    h = h_iter2(prop, c, facts, "dfa", n=(4 if c in pk_cases else 5) if quick else 6, an=UN, timeout=1200 if quick else 3000)
                     h.stubs = list(STUB_PF)
                     hs.append(h)
                 if c.mk == "std" and (not quick or any(k in c.name for k in ("r1b", "s1", "r2"))):
@@ -1005,6 +1010,20 @@ def schedule(prop, tier, seed):
                     h = h_find(prop, c, facts, "cnfa", n=4, an=UN, timeout=1500, tag="_pf")
                     h.stubs = list(STUB_PF)
                     hs.append(h)
+            for c in cases:
+                n = 6 if c in pk_cases else (8 if c.maxlen >= 4 else 7)
+                hu = Harness("h_pfcand_%s_n%d" % (c.name, n), c, "    t::pf_candidate::<%s, %d>();" % (c.mod, n),
+                             base_unwind(c, facts, n), [("hay", ("bytes", n)), ("s", "usize"), ("e", "usize")],
+                             dict(template="pf_candidate", replay_template="find", kind="dfa", N=n, fixed_inputs={"anchored": 0},
+                                  symbolic=["haystack bytes", "span"], prefilter=facts[c.name]["prefilter"][:120]),
+                             timeout=1200, stubs=list(STUB_PF), functions=[])
+                hs.append(hu)
+            for h in hs:
+                if h.case in pk_cases and h.meta["template"] != "pf_candidate" and quick:
+                    # measured: the automaton + packed prefilter search exhausts 16 GB at N=5;
+                    # quick decides the packed prefilter through pf_candidate (above)
+                    h.skip = True
+            hs = [h for h in hs if not getattr(h, "skip", False)]
             for h in hs:
                 if h.case in pk_cases:
                     f = facts[h.case.name]
@@ -1014,6 +1033,9 @@ def schedule(prop, tier, seed):
                                      "haystack here is shorter than its Teddy minimum length (%d), where the real "
                                      "find_in takes exactly that path" % f["pf_packed_min"])
                     h.functions = h.functions + F_RK + ["prefilter::Packed::find_in"]
+                    h.unwindset = dict(h.unwindset)
+                    h.unwindset.update({("9RabinKarp7find_at", 0): f["pf_packed_max_bucket"] + 1,
+                                        ("12is_equal_raw", 0): (h.case.maxlen + 3) // 4 + 1, ("=memcmp", 0): 5})
                 h.functions = h.functions + ["Prefilter::find_in", "prefilter::{StartBytes*,RareBytes*,Memmem}::find_in",
                                              "Candidate::into_option", "prefilter branches of try_find_fwd_imp/try_find_overlapping_fwd_imp"]
                 h.name = h.name  # names already unique per case
@@ -1092,8 +1114,16 @@ def schedule(prop, tier, seed):
                     if not quick:
                         hs.append(h_stream_step(prop, c, facts, "dfa", t=c.maxlen + 5, spare=3, timeout=2400))
                         hs.append(h_stream_step(prop, c, facts, "cnfa", t=c.maxlen + 2, spare=1, timeout=2400))
-                if prop == "C07" and (core or not quick):
-                    hs.append(h_stream_run(prop, c, facts, "dfa", t=3))
+                if prop == "C07":
+                    hs.append(Harness("h_sinit_%s_dfa" % c.name, c, _body(c, "dfa", "t::stream_init::<%s, _, 1>(&a)" % c.mod),
+                                      max(base_unwind(c, facts, 2), 6), [], dict(template="stream_init", kind="dfa", spare=1,
+                                      note="the constructor's state is the base case of the stream induction"),
+                                      timeout=600, covers_required=False, functions=["Automaton::try_stream_find_iter", "StreamChunkIter::new", "Buffer::new"]))
+                if prop == "C07" and not quick:
+                    # complete runs through the constructor: > 24 GB / 25 min at T=3 (measured); T=2 in thorough
+                    h = h_stream_run(prop, c, facts, "dfa", t=2, timeout=3000)
+                    h.mem_gb = 28
+                    hs.append(h)
                 if prop == "C08" and (core or not quick):
                     hs.append(h_stream_replace(prop, c, facts, "dfa", t=2 if quick else 3))
                 if prop == "C18":
@@ -1126,6 +1156,12 @@ def schedule(prop, tier, seed):
             for c in cases:
                 h = h_purity(prop, c, facts, "dfa", n=3 if quick else 4)
                 h.mem_gb = 24
+                if not c.pf:
+                    hc = Harness("h_pureclone_%s_dfa_n2" % c.name, c, _body(c, "dfa", "t::purity_clone::<%s, _, 2>(&a)" % c.mod),
+                                 max(base_unwind(c, facts, 2), facts[c.name]["dfa_match_rows"] + 2), [("h", ("bytes", 2)), ("a", "bool")],
+                                 dict(template="purity_clone", kind="dfa", N=2, symbolic=["haystack bytes", "anchoring"]),
+                                 timeout=1200, mem_gb=24, functions=F_SEARCH + F_KIND["dfa"] + ["Clone for DFA"], covers_required=False)
+                    hs.append(hc)
                 if c.pf:
                     h.stubs = list(STUB_PF)
                 hs.append(h)
